@@ -54,9 +54,9 @@ PARTIAL = ['token_case_rule holds only for tokens without a backslash at brace l
            '(token_case_rule_partial); for the others the code deviates from the property text (token_case_rule_refuted, finding FC04a)',
            'more than 100 nested braces in a token that does not start with a letter make Person() raise BibTeXError (a pybtex error, parse_name_guard, '
            'known finding FC04b, reported by the oracle): parse_name_total says "no foreign exception, no divergence" for every string, parse_name_ok gives success for every string with <= 100 opening braces',
-           'that split_tex_string splits exactly at the brace-level-0 separators is NOT proved for the model (proved: only separator characters are dropped '
-           '(chars_preserved), braced groups are never split (braced_groups_atomic), every level-0 whitespace character splits (level0_whitespace_splits)); it is checked by the oracle with an independent tokenizer on every generated '
-           'string whose braces are all closed; for strings with an unclosed group the code splits at inner braces and the oracle only demands conservation of characters']
+           'tokenizer_spec (split_tex_string(s) = the brace-level tokenizer of Spec/Names.v) is proved for strings whose braces are all closed; for strings with an '
+           'unclosed group the code splits at inner braces, the property text fixes no brace level there and the oracle only demands conservation of characters; '
+           'the comma split has conservation and atomicity theorems only, its exact boundaries are checked by the oracle']
 
 def describe(fn, a):
     return {'function': FUNCS[fn][0], 'args': [S(x) for x in a]}
